@@ -177,3 +177,9 @@ Theorem c20_split_namespec :
      split_namespec (g ++ ":" ++ p) = (g, if (p =s "") || (p =s "*") then None else Some p)).
 Proof. exact (conj split_plain split_group). Qed.
 Print Assumptions c20_split_namespec.
+
+(* extra [ctlplugin:*] plugins never change a built-in action; the first plugin defining a command wins *)
+Theorem c20_builtin_actions_survive_plugins :
+  forall e extra cmd f, action_of e cmd = Some f -> get_do_func e extra cmd = Some f.
+Proof. exact builtin_actions_survive_plugins. Qed.
+Print Assumptions c20_builtin_actions_survive_plugins.
